@@ -10,7 +10,7 @@ def prebuild(repo):
 
 def spec(tier, seed, repo):
     q = tier == "quick"
-    f = 1 if q else 8           # thorough multiplies the seeded exploration by 25
+    f = 1 if q else 6           # thorough multiplies the seeded exploration by 10
     floors = {
         "runs": 2500 * f, "handovers": 200000 * f, "runs_quiescent": 2400 * f,
         "runs_with_byzantine": 700 * f, "runs_all_honest": 700 * f,
